@@ -328,6 +328,35 @@ func runC03(c *Ctx) {
 						}
 					}
 					c.Check(okc, "R6", "exclude-only-differing-remote-tip", p.InstrPos(in), "the remote tip is excluded only when it differs from what is being pushed", "the remote ref's commit is always excluded from the scan, even when it equals the commit being pushed")
+					// what is excluded is the commit id the remote ref points at (empty for a new ref) — not a name,
+					// which rev-list would resolve locally
+					els := variadicElems(in.(*ssa.Call).Call.Args[1])
+					okSha := len(els) == 1
+					desc := ""
+					for _, e := range els {
+						for _, l := range p.LeavesNoFields(e, func(v ssa.Value) FlowAct {
+							if _, f, _, ok := FieldOf(v); ok && f == "Sha" {
+								return Stop
+							}
+							if cc, _, ok := CallResult(v); ok && strings.HasPrefix(CalleeName(cc.Common()), "(*git.RefUpdate).") {
+								return Stop
+							}
+							return Descend
+						}) {
+							_, f, base, isF := FieldOf(l)
+							fromRemote := false
+							if isF && f == "Sha" {
+								if cc, _, ok := CallResult(base); ok && CalleeName(cc.Common()) == "(*git.RefUpdate).RemoteRef" {
+									fromRemote = true
+								}
+							}
+							if !fromRemote {
+								okSha = false
+								desc = describeValue(p, l)
+							}
+						}
+					}
+					c.Check(okSha, "R6", "exclude-is-remote-ref-sha", p.InstrPos(in), "the excluded revision is the remote ref's commit id", "the revision excluded from the push scan is "+desc+" rather than the remote ref's commit id: a ref NAME is resolved by rev-list in the local repository, so `^name` can exclude exactly the commits being pushed and nothing is uploaded")
 				}
 			}
 		}
@@ -720,6 +749,27 @@ func c03Verify(c *Ctx) {
 			}
 			c.Bad("R5", key, p.InstrPos(r), "the adapter can report a successful upload without the upload verification having succeeded: the server may not hold the object although the push succeeds")
 		}
+	}
+	// a custom / standalone transfer agent reports failure through the `error` member of its answer: an answer that
+	// carries one is never treated as a completed transfer, whatever else it says
+	if fn := p.Fn("tq", "(*customAdapter).DoTransfer"); fn != nil {
+		pass := PassEdges(fn, func(cond ssa.Value) (bool, bool) {
+			e, trueMeansNil, ok := IsErrNilCheck(cond)
+			if ok {
+				if t, f, _, isF := FieldOf(e); isF && f == "Error" && strings.Contains(t, "customAdapter") {
+					return trueMeansNil, true
+				}
+			}
+			return false, false
+		})
+		n := 0
+		for _, ci := range CallsIn(fn, "tq.verifyUpload", "tools.VerifyFileHash", "tools.RenameFileCopyPermissions") {
+			n++
+			g, path := Guarded(fn.Blocks[0], ci, pass, nil)
+			c.Check(g && nonVacuous(pass), "R5", fmt.Sprintf("custom-agent-error-is-failure#%d", n), p.InstrPos(ci), "the completion steps run only for an answer without an error member",
+				"an answer of the transfer agent that carries an error can still be treated as a completed transfer (the error test is combined with another condition): the push succeeds although the agent failed to store the object: "+path)
+		}
+		c.AtLeast("R5", "completion steps of the custom adapter", n, 2)
 	}
 	// verifyUpload: the result is the outcome of the last request actually sent
 	vu := p.Fn("tq", "verifyUpload")
